@@ -35,6 +35,10 @@ func main() {
 		listMain()
 		return
 	}
+	if len(os.Args) > 2 && os.Args[1] == "gencheck" {
+		gencheckMain(os.Args[2])
+		return
+	}
 	if len(os.Args) > 2 && os.Args[1] == "disasm" {
 		disasmMain(os.Args[2])
 		return
@@ -84,7 +88,7 @@ func main() {
 		MinNontrivial: c.N(80, 800),
 		MinCounters: map[string]int64{"programs_compared": int64(c.N(100, 1000)), "wavefronts_compared": int64(c.N(400, 5000)),
 			"instructions_compared": int64(c.N(80000, 1000000)), "buffers_compared": int64(c.N(500, 5000)), "shipped_compared": int64(c.N(5, 20)),
-			"emulation_self_stable": int64(c.N(100, 600)),
+			"emulation_self_stable":      int64(c.N(100, 600)),
 			"motif|scalar-pointer-chase": int64(c.N(10, 40)), "motif|scalar-chase-partial-overlap": int64(c.N(10, 40)),
 			"motif|vector-pointer-chase": int64(c.N(10, 40)), "motif|vector-chase-to-store": int64(c.N(10, 40)),
 			"motif|load-to-branch": int64(c.N(10, 40)), "motif|load-to-smem-offset": int64(c.N(10, 40)),
@@ -221,8 +225,8 @@ func probeSpec(arch, f string) ProgSpec {
 		// writes; kernel 0 declares a bigger LDS than kernel 1.
 		return ProgSpec{ID: "probe-" + arch + "-" + f, Arch: arch, Seed: hash64("C02/probe/" + f), Allow: append(allow, "multi_kernel"),
 			Force: []string{"lds_rbw", "multi_kernel"}, Probe: f,
-			Geo:  &Launch{Grid: [3]uint32{4096, 1, 1}, WG: [3]uint16{16, 1, 1}},
-			Geo2: &Launch{Grid: [3]uint32{1024, 1, 1}, WG: [3]uint16{16, 1, 1}},
+			Geo:    &Launch{Grid: [3]uint32{4096, 1, 1}, WG: [3]uint16{16, 1, 1}},
+			Geo2:   &Launch{Grid: [3]uint32{1024, 1, 1}, WG: [3]uint16{16, 1, 1}},
 			Script: []string{"k0: ldsrbw b32 1 0 1", "ldsrbw b32 2 0 0", "ldsrbw r2b32 5 1 2", "ldsrbw b64 3 0 0", "ldsrbw r2b64 0 2 0", "k1: ldsrbw r2b64 1 3 2", "alu 2"}}
 	case "dims2", "dims3":
 		if arch == "cdna3" {
@@ -597,6 +601,37 @@ func listMain() {
 				fmt.Printf("%s: launch=%v insts=%d mem=%d feat=%v code=%016x tab=%d\n", sp.ID, k.L, k.NInst, k.NMem, k.Feat, hash64(string(k.CO.Data)), prog.TabSize)
 			}
 		}
+	}
+}
+
+// gencheckMain builds n programs per architecture from all features (no
+// simulation) and reports generator errors and how often each motif occurs
+// (debugging aid: w_c02 gencheck <n>).
+func gencheckMain(arg string) {
+	n := 0
+	fmt.Sscanf(arg, "%d", &n)
+	for _, p := range pairs() {
+		bad, withMotif, pairsN := 0, 0, 0
+		count := map[string]int{}
+		for i := 0; i < n; i++ {
+			sp := ProgSpec{ID: fmt.Sprintf("gencheck-%s-%d", p.Arch, i), Arch: p.Arch, Seed: hash64(fmt.Sprintf("gencheck/%d", i)), Allow: featureList(p.Arch), Size: []int{0, 0, 1, 0, 1, 2}[i%6]}
+			pg, err := BuildProgram(sp)
+			if err != nil {
+				bad++
+				fmt.Println(sp.ID, "seed", sp.Seed, "ERROR", err)
+				continue
+			}
+			if len(pg.Motifs) > 0 {
+				withMotif++
+			}
+			for m := range pg.Motifs {
+				count[m]++
+			}
+			if len(pg.Kernels) == 2 && pg.Kernels[1].L != pg.Kernels[0].L {
+				pairsN++
+			}
+		}
+		fmt.Printf("%s: %d programs, %d generator errors, %d with a motif, %d launch pairs with a smaller second launch; programs per motif: %v\n", p.Arch, n, bad, withMotif, pairsN, count)
 	}
 }
 
